@@ -1,14 +1,17 @@
 (** C15 — Balanced trees stay logarithmic and report their true height.
-    Statements only; proofs live in C15/Proofs*.v (on the models of C01/Model.v). *)
-From Algo.C01 Require Import Model Spec ProofsRB.
+    Statements only; proofs live in C01/Proofs*.v and C15/Proofs.v (on the models of C01/Model.v,
+    which transcribe avl.go after the fix: commit that makes [_deleteMax] refresh the cached height).
+
+    [build cmp i h] is the table of implementation [i] reached from the empty one by the history
+    [h] of Put / Delete / DeleteMin / DeleteMax / DeleteAll with arbitrary arguments; [Ok t] means
+    that no operation panicked or ran out of fuel. *)
+From Algo.C01 Require Import Model Spec.
 From Algo.C15 Require Import Spec Proofs.
 Open Scope Z_scope.
 
-(** AVL, after any history of Put / Delete / DeleteMin / DeleteMax / DeleteAll (any arguments, any
-    comparator that is a total preorder): no operation panics, the real heights of the two subtrees
-    of every node differ by at most one, every cached height is the real height, and Height()
-    (which returns the cached height of the root) is the real height. [avl_check] is the boolean
-    checker the correspondence runs on the hook dump of the implementation. *)
+(** AVL, after any history: the real heights of the two subtrees of every node differ by at most
+    one, every cached height is the real height, and Height() (the cached height of the root) is
+    the real height.  [avl_check] is the boolean checker the correspondence runs on the hook dump. *)
 Theorem C15_avl :
   forall (K V : Type) (cmp : K -> K -> Z), TotalOrder cmp ->
   forall h : list (mut K V),
@@ -16,32 +19,41 @@ Theorem C15_avl :
     balanced t /\ cached_heights_ok t /\ Height AVL t = height t /\ avl_check t = true.
 Proof. intros K V cmp TO h. exact (avl_after_history cmp TO h). Qed.
 
-Theorem C15_avl_check_sound :
-  forall (K V : Type) (t : tree K V), avl_check t = true -> balanced t /\ cached_heights_ok t.
-Proof. intros K V t. exact (avl_check_sound t). Qed.
-
-(** Red-black: the statement at full strength. *)
-Definition C15_rb_full : Prop :=
+(** Red-black, after any history (the delete family included): every root-to-leaf path has the
+    same number of black links, no right-leaning red link, no two red links in a row, black root,
+    hence height at most 2*log2(n+1). *)
+Theorem C15_rb :
   forall (K V : Type) (cmp : K -> K -> Z), TotalOrder cmp ->
   forall h : list (mut K V),
   exists t, build cmp RB h = Ok t /\
     black_balanced t /\ no_right_red t /\ no_red_red t /\ root_black t /\
     height t <= 2 * Z.log2 (size t + 1) /\ Height RB t = height t /\ rb_check t = true.
+Proof. intros K V cmp TO h. exact (rb_after_history cmp TO h). Qed.
 
-(** PARTIAL: proved for histories of Put and DeleteAll.  Missing: Delete / DeleteMin / DeleteMax
-    histories, which rest on the correspondence ([rb_check] and the height bound are evaluated on
-    the implementation's node dump after every step of the delete histories). *)
-Theorem C15_rb_partial :
+(** Every ordered table: the pre-order and in-order traversals determine the shape (the proved
+    [shape_from_traversals] rebuilds it; the driver runs its extraction on the implementation's
+    traversals), and Height() is the number of nodes on the longest root-to-leaf path of it. *)
+Theorem C15_height_all :
   forall (K V : Type) (cmp : K -> K -> Z), TotalOrder cmp ->
-  forall h : list (mut K V), forallb put_only h = true ->
-  exists t, build cmp RB h = Ok t /\
-    black_balanced t /\ no_right_red t /\ no_red_red t /\ root_black t /\
-    height t <= 2 * Z.log2 (size t + 1) /\ Height RB t = height t /\ rb_check t = true.
-Proof. intros K V cmp TO h. exact (rb_after_put_history cmp TO h). Qed.
+  forall (i : impl) (h : list (mut K V)),
+  exists t, build cmp i h = Ok t /\
+    exists sh, shape_from_traversals cmp (trav_list VLR t) (trav_list LVR t) = Some sh /\
+               Height i t = shape_height sh.
+Proof. intros K V cmp TO i h. exact (height_ok_all cmp TO i h). Qed.
 
-(** Non-vacuity and the witnesses of defect D15 on the model of the repaired code
-    ([_deleteMax] refreshes the cached height): Put 1; Put 2; DeleteMax leaves a one-node tree of
-    height 1, and Put 6,10,0,11,4,2,1; DeleteMax leaves a balanced tree with exact cached heights. *)
+(** The boolean checkers evaluated by the correspondence imply the propositions. *)
+Theorem C15_avl_check_sound :
+  forall (K V : Type) (t : tree K V), avl_check t = true -> balanced t /\ cached_heights_ok t.
+Proof. intros K V t. exact (avl_check_sound t). Qed.
+
+Theorem C15_rb_check_sound :
+  forall (K V : Type) (t : tree K V),
+    rb_check t = true -> black_balanced t /\ no_right_red t /\ no_red_red t /\ root_black t.
+Proof. intros K V t. exact (rb_check_sound t). Qed.
+
+(** Non-vacuity and the witnesses of defect D15 on the model of the repaired code:
+    Put 1; Put 2; DeleteMax leaves a one-node tree of height 1, and Put 6,10,0,11,4,2,1; DeleteMax
+    leaves a balanced tree with exact cached heights. *)
 Example C15_example :
   (match build (V:=Z) cmp_asc AVL [MPut 1 10; MPut 2 20; MDeleteMax] with
    | Ok t => Height AVL t = 1 /\ avl_check t = true
@@ -56,5 +68,7 @@ Example C15_example :
 Proof. vm_compute. repeat split; reflexivity || discriminate. Qed.
 
 Print Assumptions C15_avl.
+Print Assumptions C15_rb.
+Print Assumptions C15_height_all.
 Print Assumptions C15_avl_check_sound.
-Print Assumptions C15_rb_partial.
+Print Assumptions C15_rb_check_sound.
